@@ -27,7 +27,10 @@ import (
 	"github.com/ozontech/seq-db/zzverif/vlib"
 )
 
-var c20Names = []string{"a", "b", "a.b", "é", ""}
+// decoded field names; c20Spell gives the raw spelling of the key in the stored document where it is
+// not the plain json.Marshal form (a key written with escape sequences is the same field)
+var c20Names = []string{"a", "b", "a.b", "é", "", "a", "é", `q"\k`}
+var c20Spell = map[int]string{5: `"\u0061"`, 6: `"\u00e9"`}
 var c20Values = []string{`1`, `-0.5e3`, `"s"`, `"q\"\\"`, `"é"`, `true`, `null`, `{}`, `{"x":1}`, `[1,{"y":2}]`, `""`}
 
 type c20Doc struct {
@@ -48,6 +51,9 @@ func (d c20Doc) body() string {
 			b.WriteString("," + sp)
 		}
 		nb, _ := json.Marshal(c20Names[d.Names[i]])
+		if sp, ok := c20Spell[d.Names[i]]; ok {
+			nb = []byte(sp)
+		}
 		b.Write(nb)
 		b.WriteString(sp + ":" + sp)
 		b.WriteString(c20Values[d.Values[i]])
@@ -175,7 +181,7 @@ func TestVerifC20(t *testing.T) {
 			docs = append(docs, c20Doc{Names: []int{a}, Values: []int{v}, WS: v%2 == 1})
 		}
 		for b := 0; b < nn; b++ {
-			if b == a {
+			if c20Names[b] == c20Names[a] {
 				continue
 			}
 			for v := range c20Values {
@@ -183,7 +189,7 @@ func TestVerifC20(t *testing.T) {
 				docs = append(docs, c20Doc{Names: []int{a, b}, Values: []int{v, vi % len(c20Values)}, WS: vi%2 == 0})
 			}
 			for c := 0; c < nn; c++ {
-				if c == a || c == b {
+				if c20Names[c] == c20Names[a] || c20Names[c] == c20Names[b] {
 					continue
 				}
 				for v := 0; v < len(c20Values); v += 2 {
@@ -193,7 +199,7 @@ func TestVerifC20(t *testing.T) {
 			}
 		}
 	}
-	if !r.Thorough() && len(docs) > 900 {
+	if !r.Thorough() {
 		// quick: every 1- and 2-field document, every third 3-field document
 		var th []c20Doc
 		for i, d := range docs {
@@ -219,7 +225,8 @@ func TestVerifC20(t *testing.T) {
 		}
 	}
 	recF(nil)
-	filters = append(filters, c20Filter{Fields: []string{"é"}, Allow: true}, c20Filter{Fields: []string{"é", ""}, Allow: false}, c20Filter{Fields: []string{""}, Allow: true})
+	filters = append(filters, c20Filter{Fields: []string{"é"}, Allow: true}, c20Filter{Fields: []string{"é", ""}, Allow: false}, c20Filter{Fields: []string{""}, Allow: true},
+		c20Filter{Fields: []string{"é"}, Allow: false}, c20Filter{Fields: []string{`q"\k`}, Allow: true}, c20Filter{Fields: []string{`q"\k`}, Allow: false}, c20Filter{Fields: []string{`q"\k`, "a"}, Allow: false})
 	var rc c20Case
 	replay := r.LoadReplay(&rc)
 	if replay {
@@ -344,7 +351,7 @@ func TestVerifC20(t *testing.T) {
 	r.Sample(c20Case{Doc: docs[len(docs)/2], Filter: filters[len(filters)/2], Via: "fetch"})
 	ev := r.Get("evaluations")
 	r.Finish(t, "model_checking",
-		fmt.Sprintf("%d stored JSON objects from the grammar names{a,b,a.b,é,\"\"} x values{1,-0.5e3,\"s\",escaped string,\"é\",true,null,{},{\"x\":1},[1,{\"y\":2}],\"\"} with 0..3 fields (all 1- and 2-field name sequences, 3-field ones thinned in quick), with and without insignificant whitespace; %d field filters = every list of <=3 names over {a,b,a.b,zz} incl. repeats in allow and except mode, no filter, and lists with é / empty name; every (document, filter) through the streaming GrpcV1.Fetch of an in-process store; every filter (quick: every 5th) again through search.Ingestor.Search with a fields pipe (ID sequence must equal the un-piped search). Oracle: output is a JSON object with exactly the expected key set, every kept value JSON-equal (numbers numerically), no filter => identical bytes", len(docs), len(filters)),
+		fmt.Sprintf("%d stored JSON objects from the grammar names{a,b,a.b,é,\"\",a spelled \\u0061,é spelled \\u00e9,q\"\\k} x values{1,-0.5e3,\"s\",escaped string,\"é\",true,null,{},{\"x\":1},[1,{\"y\":2}],\"\"} with 0..3 fields (all 1- and 2-field name sequences, 3-field ones thinned in quick), with and without insignificant whitespace; %d field filters = every list of <=3 names over {a,b,a.b,zz} incl. repeats in allow and except mode, no filter, and lists with é / empty name / a name with quote and backslash; every (document, filter) through the streaming GrpcV1.Fetch of an in-process store; every filter (quick: every 5th) again through search.Ingestor.Search with a fields pipe (ID sequence must equal the un-piped search). Oracle: output is a JSON object with exactly the expected key set, every kept value JSON-equal (numbers numerically), no filter => identical bytes", len(docs), len(filters)),
 		map[string]any{
 			"states":                        len(docs) * len(filters),
 			"transitions":                   ev,
